@@ -15,7 +15,7 @@ ASSUMPTIONS = ['no schedule dimension']
 PROBES = []
 PLAN = {
   'quick': {'strata': {'bubble': 6000}, 'wall_s': 300, 'chunk': 100, 'min_conclusive': 1000},
-  'thorough': {'strata': {'bubble': 150000}, 'wall_s': 900, 'chunk': 250, 'min_conclusive': 10000},
+  'thorough': {'strata': {'bubble': 150000}, 'wall_s': 900, 'chunk': 250, 'min_conclusive': 1000},
 }
 ORACLES = [lambda run, res: co.check_transitions(run, res, want=('C02',))]
 
